@@ -30,7 +30,7 @@ ASSUMPTIONS = ["float64 only; central differences along random unit directions w
                "precision 1e-6 and is held constant by autograd); a mismatch must persist for h/10, 10h, h/100 and h/1000 (a kink of a piecewise-linear "
                "criterion or of the cost term inside the stencil does not)",
                "smooth activations only (a ReLU kink is not a generic parameter point)"]
-PROBES = ["mixed_precision_hedge_list", "hedger_call_aborted_by_model", "evaluation_only_call_raised", "fd_frozen", "fd_replay", "prev_hedge_in_loss", "cost_positive", "H2", "criterion_parameter", "after_fit", "no_graph_price",
+PROBES = ["trainable_band_model", "mixed_precision_hedge_list", "hedger_call_aborted_by_model", "evaluation_only_call_raised", "fd_frozen", "fd_replay", "prev_hedge_in_loss", "cost_positive", "H2", "criterion_parameter", "after_fit", "no_graph_price",
           "no_graph_loss", "ambient_enable_grad", "ambient_no_grad", "graph_monitor", "fd_retry_other_h", "listed_hedge", "n_times_ge2", "eval_mode", "fd_truncation_dominated"]
 CRITS = ["EntropicRiskMeasure", "ExpectedShortfall", "QuadraticCVaR", "EntropicLoss", "IsoelasticLoss", "OCE", "MSELoss", "L1Loss"]
 
@@ -67,6 +67,13 @@ def generate(rng):
     m, h = gen_hedger(rng, "h0", "m0", d, pkind, H=H, listed=False,
                       kinds=(["linear", "mlp", "mlp"] if long_h else ["linear", "mlp", "mlp", "sin", "pf_mlp"]),
                       state=(True if d["_k"] > 25 else (rng.chance(0.8) if long_h else rng.chance(0.6))), crit="c0", smooth=True)
+    if not long_h and H == 1 and rng.chance(0.15):
+        # round-7 mutant C14-m: a no-transaction band whose bounds are trainable (pfhedge's clamp / Clamp / LeakyClamp with tensor
+        # bounds, both values of inverted_output); the gradient reaches the parameters only through the bounds
+        feats = [f for f in h["inputs"] if f != "prev_hedge"] + ["prev_hedge"]
+        h = dict(h, inputs=feats)
+        m = {"id": "m0", "kind": "band", "in": nin_of(feats, 1), "out": 1, "mode": rng.choice(["mean", "max", "max", "module", "leaky"]),
+             "init_seed": rng.seed31()}
     m["dtype"] = "float64"
     world = {"primaries": [prim], "derivatives": derivs, "models": [m], "criteria": [crit], "hedgers": [h]}
     n = rng.choice([2, 3, 5, 8])
@@ -79,10 +86,9 @@ def generate(rng):
         for _ in range(rng.randint(1, 3)):
             ops.append({"op": "seam", "hedge": hedge, "seed": rng.seed31(), "mode": rng.choice(["train", "eval"])})
         return {"profile": "c14", "env": {"default_dtype": "float32"}, "world": world, "ops": ops}
-    if hedge is None and rng.chance(0.1) and "in" in m:
+    if hedge is None and rng.chance(0.1) and "in" in m and m["kind"] != "band":
         # a second stock of lower precision heads the hedge list (float32 next to the float64 underlier); the model is float64.
         # Only frozen-batch operations here: the extra stock is simulated alongside by the caller
-        from ..gen import nin_of
         world["primaries"].append({"id": "p1", "kind": "BrownianStock", "dtype": "float32",
                                    "params": {"dt": prim["params"]["dt"], "cost": rng.choice([0.0, 1e-3]), "sigma": 0.25, "mu": 0.0}})
         m["out"] = 2
@@ -263,6 +269,8 @@ def _execute(program, stats, hist):
     d = world.derivatives["d0"]
     h = world.hedgers["h0"]
     h.to(torch.float64)
+    if program["world"]["models"][0]["kind"] == "band":
+        stats.probe("trainable_band_model")
     cast_module_outputs(h.inputs, torch.float64)
     hspec = program["world"]["hedgers"][0]
     mspec = program["world"]["models"][0]
